@@ -7,7 +7,7 @@ import random
 from .. import lib
 from ..engine import bases, par, report, sched
 from ..ref import iban as ri
-from ..ref import lookup
+from ..ref import lookup, reg
 from . import c07
 
 PID = "C14"
@@ -25,44 +25,59 @@ READBACK = ["02", "04", "07", "14", "16", "23", "25"]
 
 
 # ----------------------------------------------------------------------------- operations
+def full_outcome(fn, *a, **kw):
+    """Like lib.outcome, but an exception is recorded with its message: a caller must get EXACTLY
+    what it would get alone, and the text of an error is part of that."""
+    try:
+        return ("ok", fn(*a, **kw))
+    except lib.SchwiftyException as e:
+        return ("lib", type(e).__name__, str(e))
+    except Exception as e:  # noqa: BLE001
+        return ("foreign", type(e).__name__, str(e))
+
+
 def make_op(spec: dict):
     kind = spec["op"]
     if kind == "method":
         alg = lib.checksum.algorithms["DE:" + spec["m"]]
         acct = spec["account"]
-        return lambda: lib.outcome(alg.validate, [acct], "")
+        return lambda: full_outcome(alg.validate, [acct], "")
     if kind == "iban":
         text, nat = spec["text"], spec.get("nat", False)
-        return lambda: lib.iban_parse(text, nat)
+        return lambda: full_outcome(lambda: str(lib.IBAN(text, validate_bban=nat)))
     if kind == "bic":
         text = spec["text"]
-        return lambda: lib.bic_parse(text)
+        return lambda: full_outcome(lambda: str(lib.BIC(text)))
     if kind == "from_bank_code":
         cc, code = spec["country"], spec["code"]
-        return lambda: lib.outcome(lambda: str(lib.BIC.from_bank_code(cc, code)))
+        return lambda: full_outcome(lambda: str(lib.BIC.from_bank_code(cc, code)))
     if kind == "candidates":
         cc, code = spec["country"], spec["code"]
-        return lambda: lib.outcome(lambda: [str(b) for b in lib.BIC.candidates_from_bank_code(cc, code)])
+        return lambda: full_outcome(lambda: [str(b) for b in lib.BIC.candidates_from_bank_code(cc, code)])
     if kind == "generate":
         a = (spec["country"], spec["bank"], spec["account"], spec.get("branch", ""))
-        return lambda: lib.outcome(lambda: str(lib.IBAN.generate(*a)))
+        return lambda: full_outcome(lambda: str(lib.IBAN.generate(*a)))
     if kind == "random":
         cc, seed = spec["country"], spec["seed"]
-        return lambda: lib.outcome(lambda: str(lib.IBAN.random(cc, random=random.Random(seed))))
+        return lambda: full_outcome(lambda: str(lib.IBAN.random(cc, random=random.Random(seed))))
     if kind == "from_bban":
         cc, bban = spec["country"], spec["bban"]
-        return lambda: lib.outcome(lambda: str(lib.IBAN.from_bban(cc, bban)))
+        return lambda: full_outcome(lambda: str(lib.IBAN.from_bban(cc, bban)))
     if kind == "components":
         text = spec["text"]
-        return lambda: lib.outcome(lambda: tuple(getattr(lib.IBAN(text), n) for n in (
+        return lambda: full_outcome(lambda: tuple(getattr(lib.IBAN(text), n) for n in (
             "bank_code", "branch_code", "account_code", "national_checksum_digits", "account_type")))
     if kind == "iban_bank_name":
         text = spec["text"]
-        return lambda: lib.outcome(lambda: lib.IBAN(text).bank_name)
+        return lambda: full_outcome(lambda: lib.IBAN(text).bank_name)
     if kind == "iban_bic":
         text = spec["text"]
-        return lambda: lib.outcome(lambda: str(lib.IBAN(text).bic))
+        return lambda: full_outcome(lambda: str(lib.IBAN(text).bic))
     raise ValueError(kind)
+
+
+def gran(opcode):
+    return {False: "line", True: "opcode", "hybrid": "opcode-then-line"}[opcode]
 
 
 def fingerprint():
@@ -123,12 +138,12 @@ def make_shared_ops(spec: dict):
     text = spec["text"]
     obj = lib.IBAN(text, allow_invalid=True)
     table = {
-        "validate-nat": lambda: lib.outcome(obj.validate, True),
-        "validate": lambda: lib.outcome(obj.validate),
-        "is_valid": lambda: lib.outcome(lambda: obj.is_valid),
-        "bic": lambda: lib.outcome(lambda: str(obj.bic)),
-        "components": lambda: lib.outcome(lambda: (obj.bank_code, obj.account_code, obj.national_checksum_digits)),
-        "formatted": lambda: lib.outcome(lambda: obj.formatted),
+        "validate-nat": lambda: full_outcome(obj.validate, True),
+        "validate": lambda: full_outcome(obj.validate),
+        "is_valid": lambda: full_outcome(lambda: obj.is_valid),
+        "bic": lambda: full_outcome(lambda: str(obj.bic)),
+        "components": lambda: full_outcome(lambda: (obj.bank_code, obj.account_code, obj.national_checksum_digits)),
+        "formatted": lambda: full_outcome(lambda: obj.formatted),
     }
     return [table[m] for m in spec["methods"]]
 
@@ -193,6 +208,19 @@ def build_harnesses(tier: str):
                            1 if (quick or m not in ("02", "16")) else 2, True))
         elif not quick and len(rx) >= 2:
             hs.append((f"m{m}:opcode:{rx[0]}x{rx[1]}", [specs[rx[0]], specs[rx[1]]], 1, True))
+        # methods whose published rule has several ACCEPTING branches (variants tried in turn,
+        # exempt ranges, sub-rules by digit): two accepted accounts of different branches at bytecode
+        # granularity (quick: the last pair of branches; thorough: every pair, plus the last pair with
+        # a second preemption that may fall on line starts only)
+        acc_feats = sorted({k[2] for k in keys if k[1]})
+        if len(acc_feats) > 1:
+            by_ft = {ft: next(k for k in keys if k[1] and k[2] == ft) for ft in acc_feats}
+            fpairs = list(itertools.combinations(acc_feats, 2))
+            for fa, fb in (fpairs[-1:] if quick else fpairs):
+                hs.append((f"m{m}:opcode-branches:{fa}x{fb}", [specs[by_ft[fa]], specs[by_ft[fb]]], 1, True))
+            if not quick:
+                fa, fb = fpairs[-1]
+                hs.append((f"m{m}:hybrid-branches:{fa}x{fb}", [specs[by_ft[fa]], specs[by_ft[fb]]], 2, "hybrid"))
         code = bank_for_method(m)
         pair = (r1[:1] + rx[:1]) if (r1 and rx) else rx[:2]
         if code and len(pair) == 2 and (rb or not quick):
@@ -302,6 +330,37 @@ def build_harnesses(tier: str):
     pairs += [("lookup", "lookup"), ("candidates", "candidates"), ("lookup-37040044", "iban-bic"),
               ("candidates-37040044", "iban-bank-name"), ("lookup-37040044", "nat-bad-37040044"),
               ("iban-bic", "iban-bic"), ("candidates-37040044", "lookup-37040044")]
+    # per country with a national algorithm: a nationally valid IBAN next to a nationally INVALID one
+    # of the same country with a different body (so that whatever the algorithm object remembers about
+    # one call - computed digits, sums - differs between the two), and two invalid ones
+    from ..ref import nat as _nat
+    from . import c06 as _c06
+    for cc in sorted(_nat.COUNTRIES):
+        cobj = reg.countries().get(cc)
+        if cobj is None:
+            continue
+        good = [b for b in (_nat.with_check(cc, bases.bban(cobj, f)) for f in ("distinct", "seeded", "max")) if b]
+        good = list(dict.fromkeys(good))
+        cps = _c06.check_positions(cc)
+        if len(good) < 2 or not cps:
+            continue
+
+        def spoil(b):
+            q = cps[-1]
+            for alt in "0123456789":
+                t = b[:q] + alt + b[q + 1:]
+                if t != b and cobj.matches(t) and _nat.accept(cc, t) is False:
+                    return t
+            return None
+        bad = [t for t in (spoil(b) for b in good) if t]
+        if not bad:
+            continue
+        ctl[f"natpair-{cc}-valid"] = {"op": "iban", "text": bases.iban_text(cc, good[0]), "nat": True}
+        ctl[f"natpair-{cc}-invalid"] = {"op": "iban", "text": bases.iban_text(cc, bad[-1]), "nat": True}
+        pairs.append((f"natpair-{cc}-valid", f"natpair-{cc}-invalid"))
+        if len(bad) > 1 and not quick:
+            ctl[f"natpair-{cc}-invalid2"] = {"op": "iban", "text": bases.iban_text(cc, bad[0]), "nat": True}
+            pairs.append((f"natpair-{cc}-invalid2", f"natpair-{cc}-invalid"))
     deep = {("parse", "parse-gb"), ("generate", "generate-gb"), ("nat-es", "nat-es-bad"),
             ("nat-be", "nat-be-bad"), ("generate-es", "generate-fr")}
     for a, b in pairs:
@@ -313,35 +372,71 @@ def build_harnesses(tier: str):
 
 
 # ----------------------------------------------------------------------------- exploration
+def deep_fingerprint():
+    """Everything the schwifty modules keep between calls (module globals, class attributes, instance
+    dictionaries of the algorithm objects with their lists and nested objects, cache sizes)."""
+    from ..engine import states as _states
+    return _states.fingerprint()
+
+
+def _hang_part(args, detail):
+    name, specs, bound, opcode, tier = args
+    part = par.Part()
+    part["evals"] += 1
+    part.violation(f"{name.split(':')[0]}:threads-hang",
+                   {"kind": "c14hang", "harness": name, "ops": specs, "opcode": opcode},
+                   "every call returns", str(detail)[:400])
+    part.stat("harnesses")
+    return part.done()
+
+
+def _explore_warm(args, solo_before, traced, steps):
+    part = _run_harness(args, solo_before, traced, steps)
+    return part, deep_fingerprint()
+
+
 def run_harness(args):
+    """This (shard) process makes the solo runs and the traced warm-up - state S0.  The exploration
+    itself runs in a fork of S0, all executions in that one process (fast).  If the library state at
+    the end of the exploration differs from S0, or a schedule prefix took another path than when it
+    was recorded, the library carries state from one execution into the next; the executions were
+    then not all started from the same state, and the harness is explored AGAIN with every
+    execution in its own fork of S0 (what the first exploration found is reported as well)."""
+    name, specs, bound, opcode, tier = args
+    mk = _ops_factory(specs)
+    lib.IBAN("DE89370400440532013000").country  # pre-load pycountry (its real lock is never contended)
+    lib.BIC("GENODEM1GLS").country
     try:
-        return _run_harness(args)
-    except report.HarnessError as e:
-        if isinstance(e, sched.Hang) or "ReplayDivergence" not in str(e):
-            if not isinstance(e, sched.Hang):
-                raise
-        else:
-            # the same calls under the same schedule prefix took a different path than before: the
-            # library carries state from one execution into the next.  Re-explore this harness with
-            # every execution in its own fork of this (pre-exploration) process image.
-            return _run_harness_forked(args)
-        name, specs, bound, opcode, tier = args
-        part = par.Part()
-        part["evals"] += 1
-        part.violation(f"{name.split(':')[0]}:threads-hang",
-                       {"kind": "c14hang", "harness": name, "ops": specs, "opcode": opcode},
-                       "every call returns", str(e))
-        part.stat("harnesses")
-        return part.done()
+        solo_before = [op() for op in mk()]
+        traced, steps = sched.warm_up(mk(), opcode)
     except sched.Hang as e:
-        name, specs, bound, opcode, tier = args
-        part = par.Part()
-        part["evals"] += 1
-        part.violation(f"{name.split(':')[0]}:threads-hang",
-                       {"kind": "c14hang", "harness": name, "ops": specs, "opcode": opcode},
-                       "every call returns", str(e))
-        part.stat("harnesses")
-        return part.done()
+        return _hang_part(args, e)
+    fp0 = deep_fingerprint()
+    part, drift = None, None
+    try:
+        part, fp_end = par.in_child(_explore_warm, args, solo_before, traced, steps)
+        if fp_end != fp0:
+            drift = "library state after the exploration differs from the state before it"
+    except report.HarnessError as e:
+        if "ReplayDivergence" in str(e):
+            drift = "a schedule prefix took a different path than when it was recorded"
+        elif "Hang" in str(e):
+            return _hang_part(args, e)
+        else:
+            raise
+    if drift is None:
+        return part
+    forked = _run_harness_forked(args, solo_before)
+    forked["stats"]["harnesses_with_state_carried_across_executions"] = 1
+    if part is not None:
+        forked["violations"] = part["violations"] + forked["violations"]
+        forked["evals"] += part["evals"]
+        forked["distinct"] += part["distinct"]
+        for k, v in part["stats"].items():
+            if k not in ("harnesses",) and not k.startswith("bound_"):
+                forked["stats"][k] = forked["stats"].get(k, 0) + v
+        forked["samples"] = part["samples"] + forked["samples"]
+    return forked
 
 
 def _ops_factory(specs):
@@ -354,44 +449,49 @@ def _solo_all(mk):
     return [op() for op in mk()]
 
 
-def _run_harness_forked(args):
+def _run_harness_forked(args, solo):
+    """Every execution in its own fork of this (warmed, pre-exploration) process; after the threads
+    have finished, the forked child runs the operations once more alone (read-back): what a schedule
+    leaves behind for LATER callers counts too."""
     name, specs, bound, opcode, tier = args
     part = par.Part()
     mk = _ops_factory(specs)
-    solo = par.in_child(_solo_all, mk)
-    for ch, results, steps, pre, log in sched.explore_forked(mk, bound, opcode):
-        part.count((name, ch.answers), nontrivial=pre > 0)
+    for ch, results, steps, pre, log in sched.explore_forked(mk, bound, opcode, readback=True):
+        results, after = results
+        part.count((name, "forked", ch.answers), nontrivial=pre > 0)
         part.stat("scheduling_steps_executed", sum(steps))
         if results != solo:
             wrong = [i for i, (x, y) in enumerate(zip(results, solo)) if x != y]
             part.violation(f"{name.split(':')[0]}:thread-result-differs-from-solo",
                            {"kind": "c14forked", "harness": name, "ops": specs, "answers": list(ch.answers),
                             "opcode": opcode, "switches": log, "wrong_threads": wrong}, solo, results)
+        elif after != solo:
+            part.violation(f"{name.split(':')[0]}:solo-result-changed-after-this-schedule",
+                           {"kind": "c14forked", "harness": name, "ops": specs, "answers": list(ch.answers),
+                            "opcode": opcode, "switches": log, "readback": True}, solo, after)
     part.stat("harnesses")
     part.stat("harnesses_rerun_with_fresh_process_per_execution")
-    part.stat(f"bound_{bound}_{'opcode' if opcode else 'line'}_harnesses")
+    part.stat(f"bound_{bound}_{gran(opcode)}_harnesses")
     return part.done()
 
 
-def _run_harness(args):
+def _run_harness(args, solo_before, traced, steps):
     name, specs, bound, opcode, tier = args
     part = par.Part()
-    lib.IBAN("DE89370400440532013000").country  # pre-load pycountry (its real lock is never contended)
-    lib.BIC("GENODEM1GLS").country
     if specs and specs[0].get("op") == "shared":
         mk = lambda: make_shared_ops(specs[0])  # noqa: E731
         specs_n = len(specs[0]["methods"])
     else:
         mk = lambda: [make_op(s) for s in specs]  # noqa: E731
         specs_n = len(specs)
-    solo_before = [op() for op in mk()]
-    traced, steps = sched.warm_up(mk(), opcode)
     if traced != solo_before:
         part.violation("tracing-changes-result", {"kind": "c14", "harness": name, "ops": specs,
                                                    "answers": [], "opcode": opcode}, solo_before, traced)
     outcomes, fps, states = set(), set(), set()
     transitions = 0
     last = None
+    nruns, drifted = 0, False
+    fp_start = deep_fingerprint()
     explorer = sched.explore(mk, specs_n, bound, opcode, fingerprint)
     while True:
         try:
@@ -405,6 +505,11 @@ def _run_harness(args):
                            str(e))
             break
         part.count((name, ch.answers), nontrivial=ex.preemptions > 0)
+        nruns += 1
+        if (nruns & (nruns - 1)) == 0 or nruns % 512 == 0:
+            # executions 1, 2, 4, 8, ... and every 512th: has the library state moved away from S0?
+            if deep_fingerprint() != fp_start:
+                drifted = True
         transitions += ex.total_steps
         fps |= ex.fingerprints
         for me, st, to in ex.switch_log:
@@ -418,8 +523,13 @@ def _run_harness(args):
                            {"kind": "c14", "harness": name, "ops": specs, "answers": list(ch.answers),
                             "opcode": opcode, "switches": ex.switch_log, "wrong_threads": wrong},
                            solo_before, res)
+        if drifted:
+            # the rest of this exploration would not start from S0 either: stop here, the caller
+            # re-explores the harness with one fork of S0 per execution
+            part.stat("explorations_stopped_early_because_library_state_drifted")
+            break
     # determinism of the scheduler: the last explored schedule, replayed twice, must repeat itself
-    if last is not None:
+    if last is not None and not drifted:
         again = [sched.run_once(mk(), last[0], opcode=opcode) for _ in range(2)]
         for ch2, st2, res2 in again:
             if res2 != last[1] or st2.steps != last[2]:
@@ -435,9 +545,9 @@ def _run_harness(args):
     part.stat("distinct_switch_points", len(states))
     part.stat("harnesses_with_shared_state_change_at_switch", int(len(fps) > 1))
     part.stat("harnesses_with_more_than_one_outcome_vector", int(len(outcomes) > 1))
-    part.stat(f"bound_{bound}_{'opcode' if opcode else 'line'}_harnesses")
+    part.stat(f"bound_{bound}_{gran(opcode)}_harnesses")
     part.sample({"harness": name, "ops": specs, "steps_per_thread": steps, "preemption_bound": bound,
-                 "granularity": "opcode" if opcode else "line", "distinct_outcome_vectors": len(outcomes),
+                 "granularity": gran(opcode), "distinct_outcome_vectors": len(outcomes),
                  "distinct_state_fingerprints_at_switches": len(fps)})
     return part.done()
 
@@ -519,15 +629,28 @@ def shard(args):
     return run_cold_harness(args) if args[0] == "cold" else run_harness(args)
 
 
+def _replay_forked_child(case):
+    """Warm this process exactly as run_harness does, then run the recorded schedule twice, each time
+    in its own fork, with the read-back."""
+    mk = _ops_factory(case["ops"])
+    opcode = case.get("opcode", False)
+    lib.IBAN("DE89370400440532013000").country
+    lib.BIC("GENODEM1GLS").country
+    solo = [op() for op in mk()]
+    sched.warm_up(mk(), opcode)
+    res = [par.in_child(sched._cold_exec_ops, mk, tuple(case["answers"]), None, opcode, None, True)[2]
+           for _ in range(2)]
+    return solo, res
+
+
 def replay(case: dict) -> dict:
     if case["kind"] == "c14forked":
-        mk = _ops_factory(case["ops"])
-        solo = par.in_child(_solo_all, mk)
-        res = [par.in_child(sched._cold_exec_ops, mk, tuple(case["answers"]), None, case.get("opcode", False))[2]
-               for _ in range(2)]
+        solo, res = par.in_child(_replay_forked_child, case)
         if res[0] != res[1]:
             raise report.HarnessError(f"forked schedule replay is not deterministic: {res}")
-        return {"ok": res[0] == solo, "expected": solo, "observed": res[0]}
+        threads, after = res[0]
+        return {"ok": threads == solo and after == solo, "expected": solo,
+                "observed": {"threads": threads, "alone_afterwards": after}}
     if case["kind"] == "c14hang":
         specs = case["ops"]
         mk = lambda: [make_op(s) for s in specs]  # noqa: E731
@@ -570,7 +693,7 @@ def main(tier: str) -> int:
     for name, specs, bound, opcode in hs + [(f"cold:{a}x{b}", [0, 0], c[3], False) for c in cold
                                             for a, b in [(c[1], c[2])]]:
         nthreads = len(specs[0]["methods"]) if (specs and isinstance(specs[0], dict) and specs[0].get("op") == "shared") else len(specs)
-        key = ("cold start, " if name.startswith("cold:") else "shared object, " if name.startswith("shared:") else "") + f"{nthreads} threads, <= {bound} preemptions, {'opcode' if opcode else 'line'} granularity"
+        key = ("cold start, " if name.startswith("cold:") else "shared object, " if name.startswith("shared:") else "") + f"{nthreads} threads, <= {bound} preemptions, {gran(opcode)} granularity"
         bounds[key] = bounds.get(key, 0) + 1
     run.extra.update({
         "states": int(run.stats.get("distinct_switch_points", 0)),
